@@ -9,12 +9,12 @@ def run(tier, vd):
     # replies to every row of the ingress table: legal source (E3), checksums / structure (K2 = E1)
     itf = ingresscommon.table(vd, "c10")
     ingresscommon.judge(vd, "C10", itf, {"world": "ingress"})
-    # Ethernet world: frame size (E2), source addresses of ARP and IP frames (E3)
+    # Ethernet world: frame size (E2), source addresses of ARP and IP frames (E3), UDP / ICMP checksums of what it emits (K2)
     nf = netcommon.neigh_traces("quick", sd, "c10")
     res = validate_traces("NeighTrace", nf, parallel=8)
     vd.add_validation(res)
     r2 = dict(res)
-    r2["viol"] = [v for v in res["viol"] if v["rule"] in ("E2", "E3", "PANIC")]
+    r2["viol"] = [v for v in res["viol"] if v["rule"] in ("E2", "E3", "K2", "PANIC")]
     report_viols(vd, "C10", r2, {"world": "neigh", "seed": sd}, lambda v: {"rule": v["rule"], "world": "neigh"}, lambda v: "neigh %s %s" % (v["rule"], v["p"]))
     # TCP worlds: every segment well-formed with valid checksums (K2), within the MTU (S2)
     pf = tcpcommon.pair_random(vd, "quick", sd, "c10", pollat=False) + tcpcommon.peer_random(vd, "quick", sd, "c10")
